@@ -260,15 +260,15 @@ PROPS.update({
     "C04": mk("C04", st(bu=3, bud=3, buc=2, buf=1, pan=1, panr=1, rol=1, ero=1, hid=1, ovl=1, bur=1, buw=3), 3000, 30000,
               proj_lines(("op ", "ev execute_", "ev schedule_", "ev check_task_re", "out ", "abort ", "done", "bad-op")), OB.c04, [],
               proj_name="C04: order of execute_start/end, schedule and scheduling-check events", known_match=known_if_model_agrees("K7", OB.c04, pat_after_abort), exhaustive=True),
-    "C05": mk("C05", st(hid=4, hidp=1, ero=2, td=1, bu=1, bud=1, pan=1, panr=1, ovl=1, rol=1, tdr=1, bur=1, ssr=1), 3000, 30000,
+    "C05": mk("C05", st(hid=4, hidp=1, ero=2, td=1, bu=1, bud=1, pan=1, panr=1, ovl=1, rol=1, tdr=1, bur=1, ssr=1, buw=1), 3000, 30000,
               proj_lines(("op ", "out ", "abort ", "done", "skipped", "fs ", "st ", "bad-op")),
               lambda c, io: OB.dump_invariants(c, io, "C05") + OB.abort_content(c, io), [],
               proj_name="C05: abort kinds, contents at abort, store dump",
               known_match=known_if_model_agrees("K4", lambda c, io: OB.dump_invariants(c, io, "C05"))),
-    "C06": mk("C06", st(ovl=4, td=1, bu=1, bud=1, hid=1, pan=1, panr=1, rol=1, ero=1, tdr=1, ssr=1), 3000, 30000,
+    "C06": mk("C06", st(ovl=4, td=1, bu=1, bud=1, hid=1, pan=1, panr=1, rol=1, ero=1, tdr=1, ssr=1, fail=1, buf=1), 3000, 30000,
               proj_lines(("op ", "out ", "abort ", "done", "skipped", "fs ", "st ", "bad-op")),
               lambda c, io: OB.dump_invariants(c, io, "C06") + OB.abort_content(c, io) + (
-                  [f"well-formed program aborted: {l}" for l in io if l == "abort overlap"] if c.meta.get("stream") in WELLFORMED_STREAMS else []), [],
+                  [f"well-formed program aborted: {l}" for l in io if l == "abort overlap"] if (c.meta.get("stream") in WELLFORMED_STREAMS or c.meta.get("no_abort_expected")) else []), [],
               proj_name="C06: abort kinds, contents at abort, store dump"),
     "C07": mk("C07", st(cyc=4, pan=1, panr=1, rol=1, td=1, bu=1, bud=1, tdr=1, ssr=1), 3000, 30000,
               proj_lines(("op ", "out ", "abort ", "done", "skipped", "tl ", "st ", "bad-op")), OB.c07, [],
@@ -292,7 +292,7 @@ PROPS.update({
               proj_lines(("op ", "out ", "abort ", "done", "skipped", "fs ", "cl ", "bad-op")), OB.c19, [],
               proj_name="C19: outcomes of all sessions after an abort", known_match=known_any(known_if_model_agrees("K9b", OB.c19, pat_hidden_after_abort),
                                     known_if_model_agrees("K6", OB.c19, pat_after_abort))),
-    "C20": mk("C20", st(rol=3, td=1, bu=1, bud=1, pan=2, pano=1, panr=1, hidp=1, tdr=1, bur=1, ssr=1), 3000, 30000,
+    "C20": mk("C20", st(rol=3, td=1, bu=1, bud=1, pan=2, pano=1, panr=1, hidp=1, tdr=1, bur=1, ssr=1, buw=2), 3000, 30000,
               proj_lines(("op ", "out ", "abort ", "done", "skipped", "cl ", "bad-op")),
               lambda c, io: OB.c20(c, io) + ([f"well-formed program aborted: {l}" for l in io if l in ("abort overlap", "abort hidden", "abort cyclic")]
                                              if c.meta.get("stream") in WELLFORMED_STREAMS else []), [],
